@@ -564,7 +564,7 @@ impl Pair {
                 self.tag += 1;
                 let tag = self.tag;
                 let mut pl = format!("m{tag}").into_bytes();
-                if *pad < crate::solo::PAD_SYMBOLIC_MIN {
+                if *pad < crate::solo::PAD_PROPS_MIN {
                     pl.extend(std::iter::repeat(b'x').take(*pad as usize));
                 } else if let Some(l) = self.ends[side.ix()].w.m.mps_send {
                     // symbolic pad: size the packet to the peer's Maximum Packet Size (or one off)
